@@ -4,7 +4,7 @@
 EXTENDS BehaviourFrames, Judge
 Check(name, b) == IF b THEN {} ELSE {name}
 SeqEq(a, b) == Len(a) = Len(b) /\ \A i \in 1..Len(a) : a[i] = b[i]
-Sym(o) == IF o.beh = "VfFrameIso" THEN "ISOTROPIC" ELSE IF o.beh = "VfFramePlastic" THEN "PLASTIC" ELSE o.conv
+Sym(o) == IF o.beh = "VfFrameIso" THEN "ISOTROPIC" ELSE IF o.beh = "VfFramePlastic" THEN "PLASTIC" ELSE o.conv     \* VfFrameTwo: "TWO-GRADIENTS"
 Tag(o) == o.hyp \o ":" \o Sym(o)
 Plus(a, b, n) == Tup(n, LAMBDA i : a[i] + b[i])
 Axial(h) == IF h = H!PS THEN 3 ELSE IF h = H!AGPS THEN 2 ELSE 0
@@ -63,11 +63,21 @@ FailsRotOrtho(o) ==
       \cup Check("rotation-in-place:" \o t, o.inplace)
       \cup Check("rotation-of-arrays:" \o t, o.arrays)
       \cup Check("call-failed:" \o t, o.allok)
+\* helpers alone: gradients go to the material frame (QM^T e QM / d^2), fluxes come back to the global frame (QM s QM^T / d^2);
+\* an array of integration points is rotated point by point
+FailsRotTwo(o) ==
+  LET h == HypOf(o.hyp) n == H!LocalSize(h) t == Tag(o) IN
+  Check("scale:" \o t, o.n = n /\ (n = 4 => IsZRot(o.q)))
+  \cup Check("rotate-gradients:" \o t, o.tight_g /\ SeqEq(o.g1, ToMaterial(o.q, o.e1, n)) /\ SeqEq(o.g2, ToMaterial(o.q, o.e2, n)))
+  \cup Check("rotate-forces:" \o t, o.tight_f /\ SeqEq(o.f1, RotatedLoading(o.q, o.e1, n)) /\ SeqEq(o.f2, RotatedLoading(o.q, o.e2, n)))
+  \cup Check("rotation-of-arrays-of-gradients:" \o t, o.arrays_g)
+  \cup Check("rotation-of-arrays-of-forces:" \o t, o.arrays_f)
 Fails(o) ==
   IF o.threw THEN {"exception:" \o Tag(o)}
   ELSE IF o.kind = "elastic" THEN FailsElastic(o)
   ELSE IF o.kind = "plastic" THEN FailsPlastic(o)
   ELSE IF o.kind = "rotiso" THEN FailsRotIso(o)
+  ELSE IF o.kind = "rottwo" THEN FailsRotTwo(o)
   ELSE FailsRotOrtho(o)
 ASSUME JudgeAll(Fails)
 =============================================================================
